@@ -195,8 +195,10 @@ def build_bad(c):
         y = D.Gaussian(mu, prec=lambda s: s ** 2, geometry=m, name="y")
     elif bad == "two_fields":
         y = D.Gaussian(lambda s: mu * s, cov=lambda s: 1.0 / s, geometry=m, name="y")
-    elif bad in ("gamma_dim2", "gamma_scalar_geom2"):
+    elif bad == "gamma_dim2":
         y = D.Gaussian(mu, cov=lambda s: 1.0 / s[0], geometry=m, name="y")
+    elif bad == "gamma_scalar_geom2":
+        y = D.Gaussian(mu, cov=lambda s: 1.0 / s, geometry=m, name="y")      # written as for a scalar hyper-parameter
     elif bad == "prec_clipped":
         # not the identity, although it agrees with it at many points
         y = D.Gaussian(mu, prec=lambda s: np.maximum(s, 1.0), geometry=m, name="y")
